@@ -27,7 +27,9 @@ ASSUMPTIONS = ["all fitnesses of a population have the same number of objectives
 EXPLANATION = ("C04.sortStd_eq_peel etc. prove that the model of sortNondominated returns the leading fronts of the Pareto "
                "ranking defined by peeling, for every population and k; C04.ranking_unique proves that the two local "
                "conditions run by the driver's checker on every complete output of both real procedures characterise that "
-               "ranking; the correspondence ties the models of both procedures and the peeling spec to the real code.")
+               "ranking (C04.checkRanking_sound); for the model of sortLogNondominated termination (C04.sortLog_terminates), "
+               "partition/grouping and truncation are proved, its ranking is certified per run; the correspondence ties the "
+               "models of both procedures and the peeling spec to the real code.")
 
 
 def sfr(q):
